@@ -15,6 +15,7 @@ Nothing here executes SoftHSM code: values are names, calls are uninterpreted sy
 """
 import re
 import collections
+from .facts import walk
 
 FALSEY = {'0', 'CK_FALSE', 'NULL', 'NULL_PTR', 'false', 'nullptr'}
 TRUTHY = {'CK_TRUE', 'true'}
@@ -306,13 +307,55 @@ class Interp:
                 st.facts = {f for f in st.facts if not mentions(f[0], '*' + nm)}
                 if self.is_array(nm):
                     kill(st, nm)
-        # non-const method on a local object (not through a pointer): the object changes
+        # non-const method on this object (implicit or explicit this, also a qualified base-class call): the fields the callee may write change
         r = e.get('recv')
+        if e.get('k') == 'Call' and e.get('own') and not e.get('const') and (r is None or r.get('k') == 'This') and self.prog is not None and e.get('callee') and self.fn.get('class'):
+            for fld in self.this_modset(e['callee']):
+                if fld in st.env or any(mentions(f[0], fld) for f in st.facts) or any(mentions(v, fld) for v in st.env.values()):
+                    kill(st, fld)
+        # non-const method on a local object (not through a pointer): the object changes
         if e.get('k') == 'Call' and r is not None and not e.get('const') and r.get('k') == 'Var' \
                 and r['kind'] in ('local', 'param') and not self.is_pointer(r['name']):
             c = short(e.get('callee'))
             if not is_pure_name(c):
                 kill(st, r['name'])
+
+    def this_modset(self, qname, depth=3, seen=None):
+        """Short names of the fields of *this that the method qname may write (assignments, ++/--, non-const calls on a field, delete), transitively through own calls."""
+        memo = self.prog.__dict__.setdefault('_this_modsets', {})
+        if qname in memo:
+            return memo[qname]
+        seen = seen if seen is not None else set()
+        out = set()
+        if qname in seen or depth < 0:
+            return out
+        seen.add(qname)
+        for f in self.prog.fns(qname):
+            for n in walk(f['body']):
+                k = n.get('k')
+                t = None
+                if k == 'Assign':
+                    t = n['a']
+                elif k == 'Un' and n.get('op') in ('++', '--'):
+                    t = n['e']
+                elif k == 'Delete':
+                    t = n['e']
+                elif k == 'Call':
+                    rc = n.get('recv')
+                    if rc is not None and rc.get('k') == 'Member' and rc.get('base', {}).get('k') == 'This' and not n.get('const') and not is_pure_name(short(n.get('callee'))) and not rc.get('arrow'):
+                        out.add(rc['field'])
+                    if n.get('own') and n.get('callee') and (rc is None or rc.get('k') == 'This') and not n.get('const'):
+                        out |= self.this_modset(n['callee'], depth - 1, seen)
+                    for a in n.get('args', []):
+                        if a is not None and a.get('k') == 'Un' and a.get('op') == '&' and a['e'].get('k') == 'Member' and a['e'].get('base', {}).get('k') == 'This':
+                            out.add(a['e']['field'])
+                while t is not None and (t.get('k') in ('Index', 'Paren') or (t.get('k') == 'Call' and short(t.get('callee')) == 'operator[]')):
+                    t = t.get('base') or t.get('recv') or t.get('e')
+                if t is not None and t.get('k') == 'Member' and t.get('base', {}).get('k') == 'This':
+                    out.add(t['field'])
+        if depth == 3:
+            memo[qname] = out
+        return out
 
     def container_model(self, e, st):
         """x.resize(n) / x.wipe(n): afterwards x.size() == n (ByteString / std::vector API)."""
